@@ -108,6 +108,12 @@ func VerifHarness_C10_ops() {
 	// four slots: a header tag, two symbolic body tags (possibly equal), a trailer tag
 	slotSec := [4]int{0, 1, 1, 2}
 	slotTag := [4]int{int(tagSenderCompID), b1, b2, int(tagSignatureLength)}
+	// a field may already be there, so that the tag list is not in sort order when the operations start
+	if ndBool("second-body-tag-already-set") {
+		v0 := verifValueN("val0", 1)
+		m.Body.SetBytes(Tag(b2), v0)
+		model[1].set(b2, v0)
+	}
 	K := 3
 	nops := 2 + 3*verifTier()
 	for k := 0; k < K; k++ {
